@@ -391,6 +391,9 @@ struct one_normest_core_scratch_space{
 
 double one_normest_core(const gsl_matrix_complex *A, unsigned int t, unsigned int itmax){
   assert(A->size1 == A->size2);
+  //the estimator needs fewer columns than the order of the matrix: a 2x2 matrix can use only one
+  if (t >= A->size1 and A->size1 > 1)
+    t = A->size1-1;
   if ( itmax < 2 )
     throw std::runtime_error("At least two iterations are needed.");
   if (t < 1 )
